@@ -2,6 +2,7 @@
 mod rng;
 mod common;
 mod c17;
+mod c13;
 
 use common::Case;
 use std::fs;
@@ -10,6 +11,7 @@ use std::io::Write;
 fn header(prop: &str) -> &'static str {
     match prop {
         "C17" => "From TSG Require Import Model.ContainerOps.\n",
+        "C13" | "C13D" => "From TSG Require Import Model.Stdlib.\n",
         _ => "",
     }
 }
@@ -49,6 +51,7 @@ fn main() {
         "gen" => {
             let cases = match prop.as_str() {
                 "C17" => c17::gen(&mut rng, n),
+                "C13" | "C13D" => c13::gen(&mut rng, n),
                 _ => { eprintln!("unknown property {}", prop); std::process::exit(2) }
             };
             write_cases(&prop, &cases, shards, &out);
@@ -58,6 +61,7 @@ fn main() {
             let j: serde_json::Value = serde_json::from_str(&fs::read_to_string(&path).unwrap()).unwrap();
             let case = match prop.as_str() {
                 "C17" => c17::replay(&j["case"]),
+                "C13" | "C13D" => c13::replay(&j["case"]),
                 _ => { eprintln!("unknown property {}", prop); std::process::exit(2) }
             };
             write_cases(&prop, &[case], 1, &out);
